@@ -33,7 +33,7 @@ def sync_model(world, sim):
                 v = (v + world.nid) & ((1 << (8 * o.width)) - 1)
             o.val = v
         elif o.kind == "dom":
-            o.data = bytes.fromhex(t)
+            o.data = bytes.fromhex(t.replace("-", ""))
         elif o.kind == "str":
             o.data = bytes.fromhex(t)[:-1]
 
@@ -206,7 +206,7 @@ def c04_matrix(res, run, world, rng, n_extra):
                     return False
                 if exp[0] == "data":
                     want = exp[1]
-                    if len(want) <= 4:
+                    if 1 <= len(want) <= 4:
                         good = r[0] == (0x43 | ((4 - len(want)) << 2)) and r[4:4 + len(want)] == want
                     else:
                         good = r[0] == 0x41 and r[4:8] == le32(len(want))
